@@ -3,8 +3,13 @@
 package fwrules
 
 import (
+	"fmt"
 	"testing"
 
+	"github.com/slackhq/nebula"
+	"github.com/slackhq/nebula/config"
+	"github.com/slackhq/nebula/firewall"
+	"net/netip"
 	"verifharness/fwlib"
 	"verifharness/hlib"
 	"verifharness/inside"
@@ -120,10 +125,48 @@ func addrFamily(emit func(string, ...any)) int {
 	return ops
 }
 
+// recertFamily is a deterministic family for "the node-side address must be inside the *certified* unsafe
+// networks": a flow to an address inside an unsafe network of this node is established (tracked), the certificate
+// is re-issued without / with another / with the same unsafe network and the firewall reloaded (conntrack shared,
+// allow-everything rules with local_cidr any), then the same tuple again in both directions, and a fresh tuple.
+func recertFamily(emit func(string, ...any)) int {
+	ops := 0
+	for _, sc := range []struct{ dlca, unsafe, next, rule string }{
+		{"1", "c0a80000/16", "-", "in 0 0 0 - any - - - -"},
+		{"0", "c0a80000/16", "-", "in 0 0 0 - any - any - -"},
+		{"0", "c0a80000/16", "ac100000/12", "out 0 0 0 - any - any - -"},
+		{"0", "c0a80000/16,ac100000/12", "ac100000/12", "in 6 80 80 - any - c0a80100/24 - -"},
+		{"0", "c0a80000/16", "c0a80000/16", "in 0 0 0 - any - any - -"},
+		{"0", "c0a80000/16", "c0a80000/24", "in 0 0 0 - any - any - -"},
+	} {
+		emit("reset %s %d %d %d 0 me 0a000001/8 %s - ca1", sc.dlca, 1000*hour, 1000*hour, 1000*hour, sc.unsafe)
+		emit("peer p0 h1 0a000002/8 - g1 ca1")
+		emit("rule %s", sc.rule)
+		for _, local := range []string{"c0a80105", "0a000001"} {
+			for _, d := range []string{"in", "out"} {
+				emit("drop p0 %s %s 0a000002 80 4000 6 0", d, local)
+				ops++
+			}
+		}
+		emit("recert %s", sc.next)
+		ops++
+		for _, local := range []string{"c0a80105", "0a000001", "c0a80005"} {
+			for _, d := range []string{"in", "out"} {
+				emit("drop p0 %s %s 0a000002 80 4000 6 0", d, local)
+				ops++
+			}
+		}
+		emit("drop p0 in c0a80105 0a000002 81 4001 6 0")
+		ops++
+	}
+	return ops
+}
+
 func gen(r *hlib.Rand, n int, tier, profile string, emit func(string, ...any)) {
 	ops := 0
 	if profile == "C17" {
 		ops += addrFamily(emit)
+		ops += recertFamily(emit)
 		// the outbound packet path around the same firewall (engine `inside`, harness/inside)
 		ops += inside.Family(emit)
 	} else {
@@ -187,6 +230,9 @@ func gen(r *hlib.Rand, n int, tier, profile string, emit func(string, ...any)) {
 			if r.Chance(1, 8) {
 				emit("clear")
 			}
+			if profile == "C17" && r.Chance(1, 12) {
+				ops += recertEpisode(r, w, emit)
+			}
 			if r.Chance(1, 25) {
 				// rules can be added while traffic flows
 				emit("rule %s", w.GenRule(r).Tokens())
@@ -195,8 +241,102 @@ func gen(r *hlib.Rand, n int, tier, profile string, emit func(string, ...any)) {
 	}
 }
 
+// recertEpisode: flows to addresses inside this node's unsafe networks (and to its own address) are established,
+// the certificate is re-issued with other unsafe networks (none / one removed / another one / a narrower one /
+// the same), and the flows are tried again in both directions. After `recert` the rules are allow-everything.
+func recertEpisode(r *hlib.Rand, w *fwlib.World, emit func(string, ...any)) int {
+	ops := 0
+	cur := w.My.CUnsafe
+	type fl struct {
+		peer int
+		p    firewall.Packet
+	}
+	var flows []fl
+	for j := r.Range(1, 3); j > 0; j-- {
+		var f fl
+		f.peer = r.Intn(len(w.Peers))
+		f.p, _ = w.GenPacket(r, w.Peers[f.peer])
+		f.p.RemoteAddr = w.Peers[f.peer].CNets[0].Addr()
+		f.p.LocalAddr = w.My.CNets[0].Addr()
+		if len(cur) > 0 && r.Chance(4, 5) {
+			u := cur[r.Intn(len(cur))]
+			f.p.LocalAddr = fwlib.AddrIn(r, u)
+		}
+		flows = append(flows, f)
+		for _, d := range []bool{true, false} {
+			emit("drop p%d %s %s", f.peer, fwlib.Dir(d), fwlib.PacketTokens(f.p))
+			ops++
+		}
+	}
+	var next []netip.Prefix
+	switch r.Intn(5) {
+	case 0:
+	case 1:
+		if len(cur) > 0 {
+			k := r.Intn(len(cur))
+			next = append(append(next, cur[:k]...), cur[k+1:]...)
+		}
+	case 2:
+		next = []netip.Prefix{fwlib.RandPrefixAround(r, fwlib.RandAddr(r, w.My.CNets[0].Addr().Is6())).Masked()}
+	case 3:
+		if len(cur) > 0 {
+			u := cur[0]
+			if u.Bits() < u.Addr().BitLen() {
+				u = netip.PrefixFrom(u.Addr(), u.Bits()+1).Masked()
+			}
+			next = append([]netip.Prefix{u}, cur[1:]...)
+		}
+	default:
+		next = cur
+	}
+	emit("recert %s", fwlib.PrefixesTok(next))
+	ops++
+	w.My.CUnsafe = next
+	w.Rules = []fwlib.Rule{{Incoming: true, Host: "any", LocalCidr: "any"}, {Incoming: false, Host: "any", LocalCidr: "any"}}
+	for _, f := range flows {
+		for _, d := range []bool{r.Bool(), true, false} {
+			emit("drop p%d %s %s", f.peer, fwlib.Dir(d), fwlib.PacketTokens(f.p))
+			ops++
+		}
+	}
+	return ops
+}
+
+// recertYAML is the configuration the `recert` op reloads with: allow everything in both directions.
+func recertYAML(e *fwlib.Exec) string {
+	any := "    - port: \"any\"\n      proto: \"any\"\n      host: \"any\"\n      local_cidr: \"any\"\n"
+	return fmt.Sprintf("firewall:\n  default_local_cidr_any: %v\n  conntrack:\n    tcp_timeout: \"%dns\"\n    udp_timeout: \"%dns\"\n    default_timeout: \"%dns\"\n  inbound:\n%s  outbound:\n%s",
+		e.DLCA, e.Timeout[0].Nanoseconds(), e.Timeout[1].Nanoseconds(), e.Timeout[2].Nanoseconds(), any, any)
+}
+
+func extra(e *fwlib.Exec, a []string) (string, bool) {
+	if a[0] != "recert" || len(a) != 2 {
+		return inside.Extra(e, a)
+	}
+	if e.Fw == nil {
+		return "bad-op", true
+	}
+	// a fresh config object whose firewall section changes on the reload: reloadFirewall always rebuilds
+	cfg := config.NewC(e.L)
+	if err := cfg.LoadString("firewall:\n  verif_initial: true\n"); err != nil {
+		return "err:config " + err.Error(), true
+	}
+	if err := cfg.ReloadConfigString(recertYAML(e)); err != nil {
+		return "err:config " + err.Error(), true
+	}
+	c := *e.My
+	c.CUnsafe = fwlib.UnPrefixes(a[1])
+	old := e.Fw
+	e.Fw = nebula.VerifFwReload(e.L, old, &c, cfg)
+	if e.Fw == old {
+		return "failed", true
+	}
+	e.My = &c
+	return fmt.Sprintf("reloaded %d", nebula.VerifFwRulesVersion(e.Fw)), true
+}
+
 func newExec(t *testing.T) func([]string) string {
-	e := &fwlib.Exec{T: t, Extra: inside.Extra}
+	e := &fwlib.Exec{T: t, Extra: extra}
 	return e.Do
 }
 
